@@ -17,7 +17,7 @@ with core.Lock():
     if not ok:
         print("setup: the Lean driver does not build")
         sys.exit(1)
-    mods = sorted({p.lean_module for p in props.PROPS.values() if p.lean_module})
+    mods = sorted({m for p in props.PROPS.values() if p.lean_module for m in [p.lean_module] + list(p.extra_modules)})
     ok, out = core.lake_build(mods)
     if not ok:
         # build one by one so that every module that can be built is built
